@@ -361,9 +361,6 @@ fn refused(ctx: &mut Ctx, op: &str, valid: bool, p: vcore::PanicInfo) -> R<()> {
             format!("{op} with valid parameters panicked inside rten: {} at {}; trace {:?}", p.msg, p.loc(), ctx.trace),
         );
     }
-    if std::env::var("VC_DEBUG_ALL").is_ok() {
-        eprintln!("T{:?} refused {op} valid={valid}: {} at {} n={}", std::thread::current().id(), p.msg, p.loc(), ctx.trace.len());
-    }
     if valid && std::env::var("VC_DEBUG_PANICS").is_ok() {
         eprintln!("valid-panic {op}: {} at {}; last {:?} FULL {:?}", p.msg, p.loc(), ctx.trace.last(), ctx.trace);
     }
